@@ -245,7 +245,7 @@ func c14Concrete(rc c14Recipe) []byte {
 	case "text":
 		b := text.Bytes()
 		if len(b) < 84 || r.Intn(2) == 0 {
-			pre := "solid " + strings.Repeat("m", 70+r.Intn(40)) + eol
+			pre := "solid " + strings.Repeat("m", 80+r.Intn(40)) + eol // at least 84 bytes: the layout is meant to reach the size test
 			b = append([]byte(pre), b...)
 		}
 		return b
